@@ -142,6 +142,11 @@ class RefHist:
                     continue
                 th = self.h[tgt]
                 tpos = pol(th.attrs["_offset"])
+                # liveness: a region given back to the allocator may be handed out again by the next request
+                freed = [e for e in I.effects[:n0] if e.kind == "free" and e.buf is th.attrs["_buffer"] and e.args and pol(e.args[0]) == tpos]
+                if freed:
+                    self.found.append((step, opn, f"{label} denotes {tgt} at {tpos!r}, but that region was given back to the allocator (free({tpos!r}, {freed[0].args[1] if len(freed[0].args) > 1 else '?'!r})): the reference dangles -- the next allocation that fits is placed over the object"))
+                    continue
                 if th.attrs["_buffer"] is not buf:
                     self.found.append((step, opn, f"{label} denotes {tgt}, which lives in buffer {th.attrs['_buffer'].name}, not in the holder's buffer {buf.name}"))
                     continue
@@ -244,6 +249,18 @@ class RefHist:
                 if now[0] is not src[0] or now[1] != src[1]:
                     out.append(f"{label} = tB: the source object was relocated")
             out += self.frame(before, [(sp, nslot), (pol(al[0].pos), 16)], f"{label} = <{how}>")
+        return out
+
+    def rebind_after_sharing(self, how):
+        """h.r is bound to a value (the reference builds its own object O); a second reference ra[0] is bound to O (the
+        object h.r reads); then h.r is bound to something else.  ra[0] still denotes O, O is live and keeps its values
+        (seeded C08-h: the object "built by" a reference was given back to the allocator when that reference was rebound)"""
+        out = self.bind("h", "r", "value")
+        name = self.ref[("h", "r")]
+        shared = self.read("h", "r")
+        self.assign("ra", 0, shared)
+        self.ref[("ra", 0)] = name
+        out += self.bind("h", "r", how)
         return out
 
     def bind_unionref_object(self, bound):
@@ -429,6 +446,9 @@ OPS = {
     "bind-value": lambda H: H.bind("h", "r", "value"),
     "bind-foreign": lambda H: H.bind("h", "r", "foreign"),
     "bind-null": lambda H: H.bind("h", "r", "null"),
+    "share-built-then-null": lambda H: H.rebind_after_sharing("null"),
+    "share-built-then-value": lambda H: H.rebind_after_sharing("value"),
+    "share-built-then-existing": lambda H: H.rebind_after_sharing("t1"),
     "union-bind-first-member": lambda H: H.bind("h", "u", "t1"),
     "union-bind-second-member": lambda H: H.bind("h", "u", "tz"),
     "union-bind-value": lambda H: H.bind("h", "u", "value"),
@@ -505,7 +525,7 @@ def _worker(args):
     return [(h,) + run_history(_MODEL_CACHE[root], h) for h in hists]
 
 
-@rule("RV", ["C08", "C09", "C11", "C10", "C01"], "references over histories of {bind to existing / value / foreign object / null, write through reference and original, copy the holder}: shared when and only when documented, always inside the holder's buffer, null reads None")
+@rule("RV", ["C08", "C09", "C11", "C10", "C01", "C05"], "references over histories of {bind to existing / value / foreign object / null, write through reference and original, copy the holder}: shared when and only when documented, always inside the holder's buffer, null reads None")
 def rv(cx):
     m = cx.m
     for _mod in ('struct', 'array', 'ref', 'scalar', 'typeutils'):
@@ -518,6 +538,8 @@ def rv(cx):
              # C10: an assignment to a reference slot stores exactly the assigned value and leaves every other slot alone
              # C01: a reference part built from another xobject (same / other buffer) reads back that object's value
              "C01": ("bind-foreign", "union-bind-foreign", "copy-holder-other-buffer", "copy-refarray-other-buffer", "copy-unionref-other-buffer", "bind-value"),
+             # C05: an update refused half-way must not leave a header / offset table that no longer describes the parts
+             "C05": ("holder-update-refused-late", "unionarray-update-refused-late"),
              "C10": ("bind-value", "bind-foreign", "union-bind-value", "union-bind-foreign", "item-bind-value", "item-bind-existing", "union-item-bind", "write-through-ref", "write-through-original")}.get(cx.prop)
     if focus and cx.tier != "thorough":
         hs = [h for h in hs if h[-1] in focus]
